@@ -41,6 +41,9 @@ CHECKS = {
  'C14': ('fault_enumeration', 'deterministic fault injection: every allocator call and every stdio read index of each sampled run is failed in turn',
          'per sampled (scenario, plan): exhaustive over the A allocator calls (k-th fails) and the R reads (EIO / EINTR at index j) of the fault-free run',
          'trusts: faults are injected at the yyalloc seam and at the fopencookie read callback (not real signals); read(2) path and C++ new[] not driven', '6 C14'),
+ 'C15': ('fault_enumeration', 'deterministic fault injection on a simulated tables FILE*: truncation at every byte offset, every magic-number bit flip, read errors, read chunking; serialized-versus-in-code differential; independent format parser',
+         'per sampled scenario: exhaustive truncation offsets for files up to 4 KiB (stratified incl. all table boundaries beyond), all 32 magic bit flips, 40 read-error offsets; round trip on every plan; every concatenation order of 2-3 sets',
+         'trusts: the format parser written from the manual; bit flips outside the magic number are injected only for the verify build (payload bytes)', '6 C15'),
  'C10': ('exploration', 'seeded deterministic simulation: EOF instants, source chains, yywrap policies and post-termination calls, checked against the stream reference model',
          'sampled scenarios x plans; the end-of-source instant is placed by the read schedule, premature end indications included',
          'trusts: the reference matcher with triage; a pending yymore prefix across a source change is relaxed (manual silent)', '6 C10'),
